@@ -127,6 +127,16 @@ func verifC04Rules() {
 		}
 	}
 	if rec == nil {
+		if !sealIt || outer.exts[0].typ == 0xfd00 {
+			// rules on the outer hello alone do not depend on the versions it offers
+			switch vInt(0, 2) {
+			case 1:
+				outer.exts[echIdx-3] = vVersions(0x0303)
+			case 2:
+				outer.exts = append(append([]vExt{}, outer.exts[:echIdx-3]...), outer.exts[echIdx-2:]...)
+				echIdx--
+			}
+		}
 		if sealIt {
 			s := vSeal(k, 1, 1, outer, echIdx, vCat(vEncodeInner(inner, 0), pad))
 			rec = s.outer.record()
